@@ -456,6 +456,63 @@ def clause8_fetch_unsubscribed(ctx, P, cg, own):
         raise AnalysisBroken("free_fetch call instances on paths: %d" % n)
 
 
+def clause10_failure_exits_agree(ctx, P, cg, own):
+    """sibling failure exits: in a function that fills memory reachable from its argument with fresh allocations (a loop that
+    duplicates strings into pm->path_elements[i], say), every failure return that happens AFTER such a successful allocation
+    releases what was stored - if one failure exit of the function does, all of them do"""
+    from ..core.own import HEAP_PRODUCERS
+    n = 0
+    for f in P.own_functions():
+        if not f.loops() or f.ret != "i32":
+            continue
+
+        def root(t):
+            while isinstance(t, tuple) and t and t[0] in ("field", "index", "byteoff", "load"):
+                t = t[1]
+            return t
+        stores = [i for i in f.all_insts() if i.op == "store" and isinstance(P.strip(f, i.a[0]), int) and P.strip(f, i.a[0]) >= f.nparams
+                  and f.insts[P.strip(f, i.a[0])].op == "call" and f.insts[P.strip(f, i.a[0])].callee
+                  and P.srcname_of(f.insts[P.strip(f, i.a[0])].callee) in HEAP_PRODUCERS and root(P.term(f, i.a[1]))[0] == "param"]
+        if not stores:
+            continue
+        n += 1
+        with_cleanup, without = [], []
+        for v in own.views(f):
+            rc = v.ret_const()
+            if rc is None or rc >= 0:
+                continue
+            ok_store_pos = None
+            for k, i in v.insts():
+                if i in stores:
+                    cid = P.strip(f, i.a[0])
+                    dst = P.term(f, i.a[1])
+                    if v.has_atom(lambda a, p, cid=cid, dst=dst: a[0] == "cmp" and a[3] == ("null",) and not Q._poleq(a, p) and
+                                  ((a[2][0] == "call" and a[2][3] == cid) or a[2] == ("load", dst))):
+                        ok_store_pos = k if ok_store_pos is None else ok_store_pos
+            if ok_store_pos is None:
+                continue
+            prm = root(P.term(f, stores[0].a[1]))
+            cleaned = False
+            for k, i in v.calls():
+                if k <= ok_store_pos:
+                    continue
+                for a in i.a:
+                    ta = P.term(f, a)
+                    if ta == prm or (ta[0] == "load" and root(ta) == prm):
+                        nm = P.srcname_of(i.callee) if i.callee else ""
+                        if nm in ("cjet_free", "free") or (i.callee in P.functions and P.own(P.functions[i.callee]) and
+                                                          any(P.srcname_of(x) in ("cjet_free", "free") for x in cg.reach(i.callee))):
+                            cleaned = True
+            (with_cleanup if cleaned else without).append(v)
+        if with_cleanup or without:
+            bad = without[0] if (with_cleanup and without) else None
+            ctx.ob("C07.9 R-SIB", f, "failure-exits-release-what-was-stored", bad is None,
+                   "%s has failure exits that release the allocations already stored through its argument, and one that does not: "
+                   "that exit leaks them (the caller cannot tell how many were stored)" % f.srcname, witness=bad.witness() if bad else None)
+    if n < 1:
+        raise AnalysisBroken("no function that fills its argument with allocations in a loop found (anchor fill_path_elements)")
+
+
 def clause9_hooks_first(ctx, P, cg):
     """cJSON allocates through cjet's accounted allocator only after init_parser() installed the hooks; whatever is parsed
     or created before that comes from plain malloc and is later released through cjet_free() (header mismatch: abort at
@@ -500,3 +557,4 @@ def run(ctx):
         clause7_linked(ctx, P, cg, own)
         clause8_fetch_unsubscribed(ctx, P, cg, own)
         clause9_hooks_first(ctx, P, cg)
+        clause10_failure_exits_agree(ctx, P, cg, own)
